@@ -36,7 +36,7 @@ TOEP_EPS = {(1.25, 4): 0.03, (2, 4): 0.003}
 def plan(tier, seed):
     P = Plan(4, seed)
     quick = tier == "quick"
-    per_kind = 12 if quick else 200
+    per_kind = 36 if quick else 300
     maxn = 6 if quick else 9
     for kind in lops.LEAF_KINDS:
         rng = P.rng("leaf:" + kind)
@@ -44,6 +44,14 @@ def plan(tier, seed):
             d = lops.gen_leaf(rng, kind, None, maxn)
             if d is not None:
                 P.add("leaf:" + kind, desc=d)
+    for kind in lops.ARRAY_KINDS:
+        # parameter arrays with structure (unit modulus, +-1 / +-i, all ones, constant,
+        # one-hot): where a shortcut keyed on "looks unitary / looks like a mask" would bite
+        rng = P.rng("struct:" + kind)
+        for i in range((36 if kind == "Multiply" else 12) if quick else 150):
+            d = lops.gen_struct_leaf(rng, kind, maxn)
+            if d is not None:
+                P.add("struct:" + kind, desc=d)
     for kind in lops.LEAF_KINDS:
         # size-dependent regime: lengths past 16 / 32, more than three batch / coil entries
         rng = P.rng("big:" + kind)
